@@ -73,6 +73,9 @@ type c12Case struct {
 	Servers int         `json:"servers"` // backend servers registered during setup
 	Writers []c12Writer `json:"writers"`
 	Readers []c12Reader `json:"readers"`
+	// Kick: onlineMode + onlineModeKickExistingPlayers (registration takes the
+	// kick-existing branch; identities stay distinct, so nobody is kicked)
+	Kick bool `json:"kick,omitempty"`
 }
 
 // ---------------------------------------------------------------- fixtures
@@ -147,9 +150,10 @@ type c12Player struct {
 	mem  *c12Ent // membership interval
 }
 
-func c12NewWorld(nServers int) *c12World {
+func c12NewWorld(nServers int, kick bool) *c12World {
 	cfg := config.DefaultConfig
-	cfg.OnlineMode = false
+	cfg.OnlineMode = kick
+	cfg.OnlineModeKickExistingPlayers = kick
 	cfg.Quota.Connections.Enabled = false
 	cfg.Quota.Logins.Enabled = false
 	cfg.Servers = map[string]string{}
@@ -346,7 +350,7 @@ func c12Run(c c12Case) (res verifkit.Result) {
 	if nsrv > 4 {
 		nsrv = 4
 	}
-	w := c12NewWorld(nsrv)
+	w := c12NewWorld(nsrv, c.Kick)
 
 	var mu sync.Mutex // guards the logs below (appended once per goroutine at its end)
 	var regEnts []*c12Ent
@@ -677,7 +681,7 @@ func c12Run(c c12Case) (res verifkit.Result) {
 		srvBy[e.name] = e
 	}
 
-	labels := map[string]bool{fmt.Sprintf("procs:%d", procs): true}
+	labels := map[string]bool{fmt.Sprintf("procs:%d", procs): true, fmt.Sprintf("kick-existing:%v", c.Kick): true}
 	overlap := 0
 	// all write stamps, for the non-trivial rule
 	var wstamps []int64
@@ -834,6 +838,7 @@ func c12Gen(t *rapid.T) c12Case {
 		Procs:   rapid.SampledFrom([]int{2, 4, 16}).Draw(t, "procs"),
 		Stable:  rapid.SampledFrom([]int{0, 1, 2, 4, 8, 16, 32, 48}).Draw(t, "stable"),
 		Servers: rapid.IntRange(1, 3).Draw(t, "servers"),
+		Kick:    rapid.Bool().Draw(t, "kick"),
 	}
 	maxOps := 400
 	if verifkit.Thorough() {
@@ -864,6 +869,6 @@ func c12Gen(t *rapid.T) c12Case {
 
 func TestVerif_C12(t *testing.T) {
 	verifkit.Check(t, "C12", "listing",
-		"scenario: 0-48 stable players and 1-3 servers; 1-6 writer goroutines (join via canRegisterConnection/registerConnection, put on / move between / take off server player lists, leave via connection close or Player.Disconnect - all through the real teardown path - and Register/Unregister of extra servers) against 1-6 reader goroutines cycling Players, PlayerCount, Servers, Players().Range/Len, PlayersToSlice and up to 2 DisconnectAll calls; 200-400 ops each (2000 thorough), GOMAXPROCS in {2,4,16}, run under the race detector. Oracle: no attributed race report, no runtime fatal, and every returned list has no duplicates and equals the registered set at some logical-clock stamp inside the call (counts within the bounds of the call window); listings taken after all writers finished must match exactly. non-trivial = at least one listing call was overlapped by a write (measured with the stamps)",
+		"scenario: 0-48 stable players and 1-3 servers, default registration or onlineModeKickExistingPlayers; 1-6 writer goroutines (join via canRegisterConnection/registerConnection, put on / move between / take off server player lists, leave via connection close or Player.Disconnect - all through the real teardown path - and Register/Unregister of extra servers) against 1-6 reader goroutines cycling Players, PlayerCount, Servers, Players().Range/Len, PlayersToSlice and up to 2 DisconnectAll calls; 200-400 ops each (2000 thorough), GOMAXPROCS in {2,4,16}, run under the race detector. Oracle: no race report that involves a listing function or the registry writers (registerConnection / unregisterConnection: the memory the listings read), no runtime fatal, and every returned list has no duplicates and equals the registered set at some logical-clock stamp inside the call (counts within the bounds of the call window); listings taken after all writers finished must match exactly. non-trivial = at least one listing call was overlapped by a write (measured with the stamps)",
 		c12Gen, c12Run)
 }
